@@ -6,7 +6,7 @@ what the header writes; cache lifetime; the fragment-header consumer.
 """
 from ..core import callee_of, callee_names, is_call_to, unwrap, receiver_root, fold, dominating_edges, value_path
 from ..ranges import canon, Ranges
-from ..families import describe, check_casts, check_panics, operand_chain
+from ..families import describe, check_casts, check_panics, operand_chain, bodies_of_fn
 from ..etf import DEC, ENC, writer_paths, dispatch_table, OWNED
 from ..wire import signature, fmt_sig, _sccs
 
@@ -266,6 +266,25 @@ def run(ctx):
             ctx.ok('C14.3-cache-geometry', 'ref-resolution', 'references resolve through a per-header position table')
         else:
             ctx.undecided('C14.3-cache-geometry', 'ref-resolution', 'ATOM_CACHE_REF arm not recognised')
+
+    # inside the header reader the cache is addressed by the index byte of the entry, never by the entry's position in the header
+    ctx.rule('C14.3-cache-keyed-by-wire-index', 'every access to the atom cache in the header reader (insert, get, contains ...) is keyed by the internal index byte read for that entry: the position of the entry in the header '
+             '(the loop counter) is another number as soon as a peer re-uses a slot at a different position', floor=1)
+    n_ck = 0
+    for XB in bodies_of_fn(P, DEC + 'parse_dist_header_with_cache'):
+        for bb, t in XB.calls():
+            nm = callee_of(t)[0] or ''
+            if not (nm.startswith(DEC + 'AtomCache::') and nm.rsplit('::', 1)[-1] in ('get', 'insert', 'contains', 'contains_key', 'remove', 'get_mut', 'entry')) or len(t['args']) < 2:
+                continue
+            n_ck += 1
+            kc = str(canon(XB, t['args'][1]))
+            inst = 'header-reader:%s' % nm.rsplit('::', 1)[-1]
+            if 'be_u8' in kc:
+                ctx.ok('C14.3-cache-keyed-by-wire-index', inst, 'keyed by the byte read for this entry', ctx.where(XB, bb))
+            else:
+                ctx.bad('C14.3-cache-keyed-by-wire-index', inst, 'AtomCache::%s in the header reader is keyed by %s, not by the internal index byte of the entry: a header that re-uses a slot at another position looks at (or fills) the wrong slot'
+                        % (nm.rsplit('::', 1)[-1], describe(XB, canon(XB, t['args'][1]))[:60]), ctx.where(XB, bb), key='PROV:%sparse_dist_header_with_cache:cache-keyed-by-position' % DEC)
+    ctx.anchor(n_ck >= 1, DEC + 'parse_dist_header_with_cache: AtomCache::insert')
 
     # ---------------- clause 4: what the header writes is not truncated (CAST) -- shared with C01.3 -----------------
     ctx.rule('C14.4-cast', 'atom count and atom lengths written in the header are guarded', floor=3)
